@@ -912,6 +912,7 @@ func (te *TemplateEngine) cloneDocument(source *Document) *Document {
 		}
 		copy(doc.documentRelationships.Relationships, source.documentRelationships.Relationships)
 		doc.stylesRelationshipID = source.stylesRelationshipID
+		doc.stylesRelationshipTarget = source.stylesRelationshipTarget
 	}
 
 	// 复制内容类型
